@@ -15,8 +15,8 @@ import threading
 GITLOCK = threading.Lock()
 
 def one(sid):
-    wt = f"/tmp/mx_{sid}"
-    out = f"/tmp/mx_{sid}_out"
+    wt = f"/tmp/mx{os.getpid()}_{sid}"          # unique per matrix process: two runs must not share scratch worktrees
+    out = f"/tmp/mx{os.getpid()}_{sid}_out"
     shutil.rmtree(out, ignore_errors=True)
     os.makedirs(out, exist_ok=True)
     res = {}
